@@ -143,6 +143,12 @@ Theorem C09_ldexp_exact_in_range : forall m e k : Z,
 Proof. exact ldexp_exact_in_range_lemma. Qed.
 Print Assumptions C09_ldexp_exact_in_range.
 
+(* the two tests that keep ldexp_ieee cheap for absurd exponents (certain overflow, certain underflow to zero) do not
+   change its value: it coincides with the plain definition by cases (round below 2^-1074, overflow at 2^1024, else exact) *)
+Theorem C09_ldexp_shortcuts_agree : forall (x : dbl) (k : Z), ldexp_ieee x k = ldexp_ieee_plain x k.
+Proof. exact ldexp_shortcuts_agree. Qed.
+Print Assumptions C09_ldexp_shortcuts_agree.
+
 (* in particular when the result is a normal double (2^-1022 <= |m| 2^(e+k)) *)
 Theorem C09_normal_result_loses_no_bit : forall m e' : Z, Z.abs m < 2 ^ PREC -> normal m e' -> EMIN <= e'.
 Proof. exact normal_no_bits_lost. Qed.
